@@ -654,3 +654,623 @@ Proof.
 Qed.
 
 End Root.
+
+(* ------------------------------------------------------------------------------------ *)
+(** * 5. from_val_repr: the constructors are total on typed values *)
+
+Lemma Forall_firstn' {A} (P : A -> Prop) l : forall k, Forall P l -> Forall P (firstn k l).
+Proof.
+  induction l as [|x l IH]; intros [|k] HF; cbn [firstn]; try constructor.
+  - inversion HF; assumption.
+  - apply IH. inversion HF; assumption.
+Qed.
+
+Lemma Forall_skipn' {A} (P : A -> Prop) l : forall k, Forall P l -> Forall P (skipn k l).
+Proof.
+  induction l as [|x l IH]; intros [|k] HF; cbn [skipn]; try assumption.
+  apply IH. inversion HF; assumption.
+Qed.
+
+Lemma map_repeat' {A B} (f : A -> B) x k : map f (repeat x k) = repeat (f x) k.
+Proof. induction k as [|k IH]; cbn [repeat map]; [reflexivity|]. rewrite IH. reflexivity. Qed.
+
+Lemma lenN_firstn {A} (l : list A) k : lenN (firstn k l) = N.min (N.of_nat k) (lenN l).
+Proof. unfold lenN. rewrite firstn_length. lia. Qed.
+
+Lemma lenN_skipn {A} (l : list A) k : lenN (skipn k l) = lenN l - N.of_nat k.
+Proof. unfold lenN. rewrite skipn_length. lia. Qed.
+
+Lemma lenN_flat_map_uint w vs :
+  forallb (fun x => has_type x (TUint w)) vs = true ->
+  lenN (flat_map (spec_ser (TUint w)) vs) = lenN vs * w.
+Proof.
+  intros Hty. unfold lenN. rewrite flat_map_uint_length by exact Hty. unfold nat_of.
+  rewrite Nat2N.inj_mul, N2Nat.id. reflexivity.
+Qed.
+
+Section Build.
+Variable H : chunk -> chunk -> chunk.
+Variable zh : nat -> chunk.
+Hypothesis Hzh : forall d, zh d = zero_hash H d.
+
+Let zh0' : zh 0 = zero_chunk := zh0 H zh Hzh.
+
+(* SubtreeFillToContents over nodes that satisfy the predicates *)
+Lemma fill_series d ns (ps : list (node -> Prop)) :
+  N.of_nat d < 64 -> lenN ns <= 2 ^ N.of_nat d ->
+  Forall2 (fun n (p : node -> Prop) => p n) ns ps ->
+  exists n, fill_to_contents zh ns d = OK n /\ series zh d ps n.
+Proof.
+  intros Hd Hl HF. destruct (fill_to_contents_series zh d ns Hd Hl) as (n & E & S).
+  exists n. split; [exact E|]. eapply series_mono; [|exact S].
+  clear - HF. induction HF as [|x p ns' ps' Hp _ IH]; cbn [map].
+  - constructor.
+  - constructor; [|exact IH]. intros m ->. exact Hp.
+Qed.
+
+Lemma leaves_chunks cs :
+  Forall2 (fun n (p : node -> Prop) => p n) (map Leaf cs) (map is_chunk cs).
+Proof.
+  induction cs as [|c cs IH]; cbn [map]; [constructor|].
+  constructor; [reflexivity|exact IH].
+Qed.
+
+Lemma fill_chunks d cs :
+  N.of_nat d < 64 -> lenN cs <= 2 ^ N.of_nat d ->
+  exists n, fill_to_contents zh (map Leaf cs) d = OK n /\ series zh d (map is_chunk cs) n.
+Proof.
+  intros Hd Hl. apply fill_series; [exact Hd| |apply leaves_chunks].
+  rewrite lenN_map. exact Hl.
+Qed.
+
+Definition from_stmt (t : ty) : Prop :=
+  wf_ty t = true -> small_params t = true -> small_fields t = true ->
+  forall v, has_type v t = true -> exists n, from_val zh t v = OK n /\ repr zh t n v.
+
+Lemma mapM_from e vs :
+  (forall v, has_type v e = true -> exists n, from_val zh e v = OK n /\ repr zh e n v) ->
+  forallb (fun x => has_type x e) vs = true ->
+  exists ns, mapM (from_val zh e) vs = OK ns /\
+             Forall2 (fun n (p : node -> Prop) => p n) ns (map (fun x m => repr zh e m x) vs) /\
+             lenN ns = lenN vs.
+Proof.
+  intros IH. induction vs as [|v vs IHvs]; intros Hty.
+  - exists []. repeat split. constructor.
+  - cbn [forallb] in Hty. apply andb_prop in Hty. destruct Hty as [Hv Hvs].
+    destruct (IH v Hv) as (n & En & Rn). destruct (IHvs Hvs) as (ns & Ens & Rns & Hl).
+    exists (n :: ns). cbn [mapM map]. rewrite En. cbn [bind]. rewrite Ens. cbn [bind].
+    repeat split; [constructor; assumption|]. unfold lenN in *. cbn [length]. lia.
+Qed.
+
+Lemma fields_from fs : Forall from_stmt fs ->
+  forallb wf_ty fs = true -> forallb small_params fs = true -> forallb small_fields fs = true ->
+  forall vs, rfields_ty fs vs = true ->
+  exists ns, rfields_from zh fs vs = OK ns /\
+             Forall2 (fun n (p : node -> Prop) => p n) ns (rfields_repr zh fs vs) /\
+             lenN ns = lenN fs /\ length fs = length vs.
+Proof.
+  induction 1 as [|f fs Hf _ IH]; intros Hwf Hsp Hsf vs Hty.
+  - destruct vs; [|discriminate Hty]. exists []. repeat split. constructor.
+  - destruct vs as [|x vs]; [discriminate Hty|].
+    cbn [forallb rfields_ty] in *.
+    apply andb_prop in Hwf, Hsp, Hsf, Hty.
+    destruct Hwf as [Hwf1 Hwf2], Hsp as [Hsp1 Hsp2], Hsf as [Hsf1 Hsf2], Hty as [Hty1 Hty2].
+    destruct (IH Hwf2 Hsp2 Hsf2 vs Hty2) as (ns & Ens & Rns & Hl & Hl').
+    destruct (Hf Hwf1 Hsp1 Hsf1 x Hty1) as (n & En & Rn).
+    exists (n :: ns). cbn [rfields_from rfields_repr]. rewrite En. cbn [bind]. rewrite Ens.
+    cbn [bind]. repeat split; [constructor; assumption| |cbn [length]; lia].
+    unfold lenN in *. cbn [length]. lia.
+Qed.
+
+Ltac dval v Hty := destruct v; try (cbn [has_type] in Hty; discriminate Hty).
+
+Theorem from_val_repr : forall t v,
+  wf_ty t = true -> small_params t = true -> small_fields t = true -> has_type v t = true ->
+  exists n, from_val zh t v = OK n /\ repr zh t n v.
+Proof.
+  intros t v Hwf Hsp Hsf Hty. revert t Hwf Hsp Hsf v Hty. fold from_stmt.
+  induction t as [w| |k| |k|k|e k IHe|e k IHe|fs IHfs|none opts IHopts] using ty_nind;
+    intros Hwf Hsp Hsf v Hty.
+  - dval v Hty. eexists. split; reflexivity.
+  - dval v Hty. cbn [from_val basic_chunk bind repr]. rewrite zh0'. eexists. split; reflexivity.
+  - dval v Hty. eexists. split; reflexivity.
+  - dval v Hty. eexists. split; reflexivity.
+  - (* bitvector *)
+    dval v Hty. cbn [small_params] in Hsp. apply N.leb_le in Hsp.
+    cbn [has_type] in Hty. cbn [from_val repr]. rewrite Hty. cbn [negb].
+    apply N.eqb_eq in Hty. fold (lenN bs) in Hty.
+    fold (cdepth (TBitvector k)). fold (bit_chunks bs).
+    rewrite cdepth_bitvector by exact Hsp.
+    apply fill_chunks.
+    + pose proof (depth_for_bound ((k + 255) / 256) 48 ltac:(lia)). lia.
+    + rewrite bit_chunks_lenN, Hty. apply depth_for_ge.
+  - (* bitlist *)
+    dval v Hty. cbn [small_params] in Hsp. apply N.leb_le in Hsp.
+    cbn [has_type] in Hty. apply N.leb_le in Hty.
+    cbn [from_val repr]. rewrite (proj2 (N.ltb_ge k (N.of_nat (length bs))) Hty).
+    fold (lenN bs) in *. fold (cdepth (TBitlist k)). fold (bit_chunks bs).
+    destruct (fill_chunks (cdepth (TBitlist k)) (bit_chunks bs)) as (c & Ec & Sc).
+    + rewrite cdepth_bitlist by exact Hsp.
+      pose proof (depth_for_bound ((k + 255) / 256) 48 ltac:(lia)). lia.
+    + rewrite cdepth_bitlist by exact Hsp. rewrite bit_chunks_lenN.
+      pose proof (depth_for_ge ((k + 255) / 256)). lia.
+    + rewrite Ec. cbn [bind]. eexists. split; [reflexivity|]. exists c. split; [reflexivity|exact Sc].
+  - (* vector *)
+    dval v Hty. cbn [wf_ty small_params small_fields has_type] in Hwf, Hsp, Hsf, Hty.
+    apply andb_prop in Hwf, Hsp, Hty.
+    destruct Hwf as [_ Hwfe], Hsp as [Hk Hspe], Hty as [Hlen Htys]. apply N.leb_le in Hk.
+    destruct (elem_cases e) as [[w ->]|Hnb].
+    + rewrite from_val_vector_uint.
+      apply N.eqb_eq in Hlen. fold (lenN vs) in Hlen.
+      fold (lenN vs). rewrite (proj2 (N.ltb_ge k (lenN vs))) by lia.
+      rewrite pack_uints_typed by exact Htys. cbn [bind].
+      cbn [wf_ty] in Hwfe.
+      destruct (fill_chunks (cdepth (TVector (TUint w) k))
+                            (chunkify (flat_map (spec_ser (TUint w)) vs))) as (c & Ec & Sc).
+      * rewrite cdepth_vector_uint by assumption.
+        pose proof (chunk_count_uint_bound w k Hwfe Hk).
+        pose proof (depth_for_bound (chunk_count_basic (TUint w) k) 56 ltac:(lia)). lia.
+      * rewrite cdepth_vector_uint by assumption.
+        rewrite chunkify_lenN, lenN_flat_map_uint, Hlen by exact Htys.
+        apply depth_for_ge.
+      * exists c. split; [exact Ec|]. rewrite repr_vector. exact Sc.
+    + assert (Hb : is_basic_elem e = false) by (destruct Hnb as [->|[Hb _]]; [reflexivity|exact Hb]).
+      rewrite from_val_vector_nb by exact Hb. rewrite Hlen. cbn [negb].
+      apply N.eqb_eq in Hlen. fold (lenN vs) in Hlen.
+      destruct (mapM_from e vs (IHe Hwfe Hspe Hsf) Htys) as (ns & Ens & Rns & Hl).
+      rewrite Ens. cbn [bind].
+      pose proof (fun a b => fill_series (cdepth (TVector e k)) ns _ a b Rns) as Hfill.
+      destruct Hfill as (c & Ec & Sc).
+      * rewrite cdepth_vector_nb by assumption. pose proof (depth_for_bound k 56 Hk). lia.
+      * rewrite cdepth_vector_nb by assumption. rewrite Hl, Hlen. apply depth_for_ge.
+      * exists c. split; [exact Ec|]. rewrite repr_vector, Hb. exact Sc.
+  - (* list *)
+    dval v Hty. cbn [wf_ty small_params small_fields has_type] in Hwf, Hsp, Hsf, Hty.
+    apply andb_prop in Hsp, Hty.
+    destruct Hsp as [Hk Hspe], Hty as [Hlen Htys]. apply N.leb_le in Hk, Hlen.
+    fold (lenN vs) in Hlen.
+    destruct (elem_cases e) as [[w ->]|Hnb].
+    + rewrite from_val_list_uint.
+      fold (lenN vs). rewrite (proj2 (N.ltb_ge k (lenN vs))) by lia.
+      rewrite pack_uints_typed by exact Htys. cbn [bind].
+      cbn [wf_ty] in Hwf.
+      destruct (fill_chunks (cdepth (TList (TUint w) k))
+                            (chunkify (flat_map (spec_ser (TUint w)) vs))) as (c & Ec & Sc).
+      * rewrite cdepth_list_uint by assumption.
+        pose proof (chunk_count_uint_bound w k Hwf Hk).
+        pose proof (depth_for_bound (chunk_count_basic (TUint w) k) 56 ltac:(lia)). lia.
+      * rewrite cdepth_list_uint by assumption.
+        rewrite chunkify_lenN, lenN_flat_map_uint by exact Htys.
+        pose proof (depth_for_ge (chunk_count_basic (TUint w) k)) as Hge.
+        unfold chunk_count_basic in *. cbn [spec_fixed_len] in *.
+        assert (lenN vs * w <= k * w) by (apply N.mul_le_mono_r; exact Hlen).
+        lia.
+      * rewrite Ec. cbn [bind]. eexists. split; [reflexivity|]. rewrite repr_list.
+        exists c. split; [reflexivity|exact Sc].
+    + assert (Hb : is_basic_elem e = false) by (destruct Hnb as [->|[Hb _]]; [reflexivity|exact Hb]).
+      rewrite from_val_list_nb by exact Hb.
+      fold (lenN vs). rewrite (proj2 (N.ltb_ge k (lenN vs))) by lia.
+      destruct (mapM_from e vs (IHe Hwf Hspe Hsf) Htys) as (ns & Ens & Rns & Hl).
+      rewrite Ens. cbn [bind].
+      pose proof (fun a b => fill_series (cdepth (TList e k)) ns _ a b Rns) as Hfill.
+      destruct Hfill as (c & Ec & Sc).
+      * rewrite cdepth_list_nb by assumption. pose proof (depth_for_bound k 56 Hk). lia.
+      * rewrite cdepth_list_nb by assumption. pose proof (depth_for_ge k). lia.
+      * rewrite Ec. cbn [bind]. eexists. split; [reflexivity|]. rewrite repr_list, Hb.
+        exists c. split; [reflexivity|exact Sc].
+  - (* container *)
+    dval v Hty. rewrite has_type_cont in Hty. rewrite from_val_cont.
+    cbn [wf_ty small_params small_fields] in Hwf, Hsp, Hsf.
+    apply andb_prop in Hwf, Hsf. destruct Hwf as [_ Hwf], Hsf as [Hcnt Hsf].
+    apply N.leb_le in Hcnt.
+    destruct (fields_from fs IHfs Hwf Hsp Hsf vs Hty) as (ns & Ens & Rns & Hl & Hl').
+    rewrite Hl', Nat.eqb_refl. cbn [negb]. rewrite Ens. cbn [bind].
+    assert (Hd : cdepth (TContainer fs) = depth_for (lenN fs)).
+    { change (cdepth (TContainer fs)) with (nat_of (cover_depth (lenN fs))).
+      apply cover_depth_for. lia. }
+    pose proof (fun a b => fill_series (cdepth (TContainer fs)) ns _ a b Rns) as Hfill.
+      destruct Hfill as (c & Ec & Sc).
+    + rewrite Hd. pose proof (depth_for_bound (lenN fs) 63 Hcnt). lia.
+    + rewrite Hd, Hl. apply depth_for_ge.
+    + exists c. split; [exact Ec|]. rewrite repr_cont. exact Sc.
+  - (* union *)
+    dval v Hty. rewrite has_type_union in Hty. rewrite from_val_union.
+    cbn [wf_ty small_params small_fields] in Hwf, Hsp, Hsf.
+    apply andb_prop in Hwf. destruct Hwf as [_ Hwfo].
+    rewrite rpick_nth_error in Hty.
+    destruct (none && (sel =? 0)) eqn:Enone.
+    + destruct v as [x|]; [discriminate Hty|]. cbn [bind]. eexists. split; [reflexivity|].
+      rewrite repr_union. eexists. split; reflexivity.
+    + set (k := nat_of (if none then sel - 1 else sel)) in *.
+      destruct (nth_error opts k) as [o|] eqn:Eo; [|discriminate Hty].
+      destruct v as [x|]; [|discriminate Hty].
+      assert (Hin : In o opts) by (eapply nth_error_In; exact Eo).
+      rewrite Forall_forall in IHopts. rewrite forallb_forall in Hwfo, Hsp, Hsf.
+      destruct (IHopts o Hin (Hwfo o Hin) (Hsp o Hin) (Hsf o Hin) x Hty) as (c & Ec & Rc).
+      rewrite rpick_nth_error, Eo, Ec. cbn [bind]. eexists. split; [reflexivity|].
+      rewrite repr_union. exists c. split; [reflexivity|].
+      fold k. rewrite rpick_nth_error, Eo. exact Rc.
+Qed.
+
+End Build.
+
+(* ------------------------------------------------------------------------------------ *)
+(** * 6. Defaults *)
+
+Section DefaultViews.
+  Variable zh : nat -> chunk.
+  Lemma default_node_vector e k :
+    default_node zh (TVector e k) =
+    if is_basic_elem e then OK (fill_to_depth (Leaf (zh 0)) (cdepth (TVector e k)))
+    else do d <- default_node zh e; fill_to_length zh d (cdepth (TVector e k)) k.
+  Proof. reflexivity. Qed.
+  Lemma default_node_cont fs :
+    default_node zh (TContainer fs) =
+    do ns <- mapM (default_node zh) fs; fill_to_contents zh ns (cdepth (TContainer fs)).
+  Proof. reflexivity. Qed.
+  Lemma default_node_union none opts :
+    default_node zh (TUnion none opts) =
+    if none then OK (Pair (Leaf zero_chunk) (Leaf zero_chunk))
+    else match opts with
+         | o :: _ => do d <- default_node zh o; OK (Pair d (Leaf zero_chunk))
+         | [] => Panic
+         end.
+  Proof. reflexivity. Qed.
+End DefaultViews.
+
+Lemma has_type_default t : wf_ty t = true -> has_type (default_val t) t = true.
+Proof.
+  induction t as [w| |k| |k|k|e k IHe|e k IHe|fs IHfs|none opts IHopts] using ty_nind;
+    intros Hwf; cbn [default_val].
+  - cbn [has_type]. apply N.ltb_lt. apply pow2_pos.
+  - reflexivity.
+  - cbn [has_type]. unfold zero_bytes, nat_of. rewrite repeat_length, N2Nat.id. apply N.eqb_refl.
+  - reflexivity.
+  - cbn [has_type]. unfold nat_of. rewrite repeat_length, N2Nat.id. apply N.eqb_refl.
+  - cbn [has_type length]. apply N.leb_le. lia.
+  - cbn [wf_ty] in Hwf. apply andb_prop in Hwf. destruct Hwf as [_ Hwfe].
+    cbn [has_type]. unfold nat_of. rewrite repeat_length, N2Nat.id, N.eqb_refl. cbn [andb].
+    apply forallb_forall. intros x Hx. apply repeat_spec in Hx. subst x. apply IHe, Hwfe.
+  - cbn [has_type length forallb]. rewrite andb_true_r. apply N.leb_le. lia.
+  - cbn [wf_ty] in Hwf. apply andb_prop in Hwf. destruct Hwf as [_ Hwf].
+    rewrite has_type_cont. induction IHfs as [|f fs Hf _ IH]; [reflexivity|].
+    cbn [forallb] in Hwf. apply andb_prop in Hwf. destruct Hwf as [Hwf1 Hwf2].
+    cbn [map rfields_ty]. rewrite (Hf Hwf1), (IH Hwf2). reflexivity.
+  - cbn [wf_ty] in Hwf. apply andb_prop in Hwf. destruct Hwf as [Hwf Hwfo].
+    apply andb_prop in Hwf. destruct Hwf as [Hne _].
+    destruct none; [reflexivity|].
+    destruct opts as [|o opts]; [discriminate Hne|].
+    rewrite has_type_union. cbn [andb]. change (nat_of 0) with O. cbn [rpick].
+    inversion IHopts as [|? ? Ho _]; subst. apply Ho.
+    cbn [forallb] in Hwfo. apply andb_prop in Hwfo. apply Hwfo.
+Qed.
+
+Section Default.
+Variable H : chunk -> chunk -> chunk.
+Variable zh : nat -> chunk.
+Hypothesis Hzh : forall d, zh d = zero_hash H d.
+
+Let zh0' : zh 0 = zero_chunk := zh0 H zh Hzh.
+
+(* a fully materialised zero tree is a series of any predicates that hold of the zero chunk *)
+Lemma series_fill_zeros d : forall ps : list (node -> Prop),
+  lenN ps <= 2 ^ N.of_nat d -> Forall (fun p : node -> Prop => p (Leaf (zh 0))) ps ->
+  series zh d ps (fill_to_depth (Leaf (zh 0)) d).
+Proof.
+  induction d as [|d IH]; intros ps Hl HF.
+  - cbn [fill_to_depth]. destruct ps as [|p ps]; [apply series_nil, ztree_leaf|].
+    apply series_0. rewrite pow2N_0 in Hl. unfold lenN in Hl. cbn [length] in Hl.
+    destruct ps; [|cbn [length] in Hl; lia]. split; [reflexivity|]. inversion HF; assumption.
+  - cbn [fill_to_depth]. apply series_pair.
+    destruct (lenN ps <=? 2 ^ N.of_nat d) eqn:E.
+    + apply N.leb_le in E. split; [apply IH; assumption|apply ztree_fill].
+    + apply N.leb_gt in E. rewrite pow2N_S in Hl. unfold nat_of. split; apply IH.
+      * rewrite lenN_firstn, N2Nat.id. lia.
+      * apply Forall_firstn', HF.
+      * rewrite lenN_skipn, N2Nat.id. lia.
+      * apply Forall_skipn', HF.
+Qed.
+
+Lemma zero_chunks_preds cs : Forall (eq zero_chunk) cs ->
+  Forall (fun p : node -> Prop => p (Leaf (zh 0))) (map is_chunk cs).
+Proof.
+  induction 1 as [|c cs Hc _ IH]; cbn [map]; constructor; [|exact IH].
+  unfold is_chunk. rewrite zh0', Hc. reflexivity.
+Qed.
+
+Definition default_stmt (t : ty) : Prop :=
+  wf_ty t = true -> small_params t = true -> small_fields t = true ->
+  exists n, default_node zh t = OK n /\ repr zh t n (default_val t).
+
+Lemma len_leaf_0 : len_leaf 0 = Leaf (zh 0).
+Proof. rewrite zh0'. reflexivity. Qed.
+
+Lemma fields_default fs : Forall default_stmt fs ->
+  forallb wf_ty fs = true -> forallb small_params fs = true -> forallb small_fields fs = true ->
+  exists ns, mapM (default_node zh) fs = OK ns /\
+             Forall2 (fun n (p : node -> Prop) => p n) ns (rfields_repr zh fs (map default_val fs)) /\
+             lenN ns = lenN fs.
+Proof.
+  induction 1 as [|f fs Hf _ IH]; intros Hwf Hsp Hsf.
+  - exists []. repeat split. constructor.
+  - cbn [forallb] in *. apply andb_prop in Hwf, Hsp, Hsf.
+    destruct Hwf as [Hwf1 Hwf2], Hsp as [Hsp1 Hsp2], Hsf as [Hsf1 Hsf2].
+    destruct (IH Hwf2 Hsp2 Hsf2) as (ns & Ens & Rns & Hl).
+    destruct (Hf Hwf1 Hsp1 Hsf1) as (n & En & Rn).
+    exists (n :: ns). cbn [mapM map rfields_repr]. rewrite En. cbn [bind]. rewrite Ens. cbn [bind].
+    repeat split; [constructor; assumption|]. unfold lenN in *. cbn [length]. lia.
+Qed.
+
+Theorem default_repr : forall t,
+  wf_ty t = true -> small_params t = true -> small_fields t = true ->
+  exists n, default_node zh t = OK n /\ repr zh t n (default_val t).
+Proof.
+  fold default_stmt.
+  induction t as [w| |k| |k|k|e k IHe|e k IHe|fs IHfs|none opts IHopts] using ty_nind;
+    intros Hwf Hsp Hsf.
+  - eexists. split; [reflexivity|]. cbn [default_val repr]. unfold zleaf.
+    rewrite le_bytes_0, pad32_zeros. change (nat_of 0) with O. rewrite zh0'. reflexivity.
+  - eexists. split; [reflexivity|]. cbn [default_val repr]. unfold zleaf.
+    change (nat_of 0) with O. rewrite zh0'. reflexivity.
+  - eexists. split; [reflexivity|]. cbn [default_val repr]. unfold zleaf, zero_bytes.
+    rewrite pad32_zeros. change (nat_of 0) with O. rewrite zh0'. reflexivity.
+  - eexists. split; [reflexivity|]. cbn [default_val repr]. unfold zleaf, zero_bytes.
+    rewrite pad32_zeros. change (nat_of 0) with O. rewrite zh0'. reflexivity.
+  - (* bitvector *)
+    cbn [small_params] in Hsp. apply N.leb_le in Hsp.
+    eexists. split; [reflexivity|]. cbn [default_val repr]. unfold zleaf.
+    change (nat_of 0) with O. fold (cdepth (TBitvector k)).
+    apply series_fill_zeros; [|apply zero_chunks_preds, bit_chunks_false].
+    rewrite lenN_map, bit_chunks_lenN, lenN_repeat. unfold nat_of. rewrite N2Nat.id.
+    rewrite cdepth_bitvector by exact Hsp. apply depth_for_ge.
+  - (* bitlist *)
+    eexists. split; [reflexivity|]. cbn [default_val repr].
+    exists (zleaf zh (contents_depth (TBitlist k))). split.
+    + unfold zleaf at 2. change (nat_of 0) with O. rewrite <- len_leaf_0. reflexivity.
+    + apply series_nil. apply ztree_leaf.
+  - (* vector *)
+    cbn [wf_ty small_params small_fields] in Hwf, Hsp, Hsf.
+    apply andb_prop in Hwf, Hsp.
+    destruct Hwf as [Hk1 Hwfe], Hsp as [Hk Hspe]. apply N.leb_le in Hk, Hk1.
+    rewrite default_node_vector. cbn [default_val].
+    destruct (elem_cases e) as [[w ->]|Hnb].
+    + cbn [is_basic_elem]. eexists. split; [reflexivity|]. rewrite repr_vector.
+      cbn [is_basic_elem wf_ty] in *.
+      apply series_fill_zeros.
+      * rewrite lenN_map. unfold packed_chunks. rewrite chunkify_lenN.
+        cbn [default_val].
+        rewrite lenN_flat_map_uint.
+        -- rewrite lenN_repeat. unfold nat_of. rewrite N2Nat.id.
+           rewrite cdepth_vector_uint by assumption. apply depth_for_ge.
+        -- apply forallb_forall. intros x Hx. apply repeat_spec in Hx. subst x.
+           apply (has_type_default (TUint w)). exact Hwfe.
+      * apply zero_chunks_preds. unfold packed_chunks. cbn [default_val].
+        destruct (flat_map_uint0 w (nat_of k)) as [m ->]. apply chunkify_zeros.
+    + assert (Hb : is_basic_elem e = false) by (destruct Hnb as [->|[Hb _]]; [reflexivity|exact Hb]).
+      rewrite Hb. destruct (IHe Hwfe Hspe Hsf) as (d0 & Ed & Rd). rewrite Ed. cbn [bind].
+      destruct (fill_to_length_series zh d0 (cdepth (TVector e k)) k) as (n & En & Sn).
+      * rewrite cdepth_vector_nb by assumption. pose proof (depth_for_bound k 56 Hk). lia.
+      * lia.
+      * rewrite cdepth_vector_nb by assumption. apply depth_for_ge.
+      * exists n. split; [exact En|]. rewrite repr_vector, Hb.
+        eapply series_mono; [|exact Sn]. rewrite map_repeat'. apply Forall2_repeat'.
+        intros m ->. exact Rd.
+  - (* list *)
+    eexists. split; [reflexivity|]. cbn [default_val]. rewrite repr_list.
+    exists (zleaf zh (contents_depth (TList e k))). split.
+    + unfold zleaf at 2. change (nat_of 0) with O. rewrite <- len_leaf_0. reflexivity.
+    + cbn [map]. destruct (is_basic_elem e); apply series_nil, ztree_leaf.
+  - (* container *)
+    cbn [wf_ty small_params small_fields] in Hwf, Hsp, Hsf.
+    apply andb_prop in Hwf, Hsf. destruct Hwf as [_ Hwf], Hsf as [Hcnt Hsf].
+    apply N.leb_le in Hcnt.
+    destruct (fields_default fs IHfs Hwf Hsp Hsf) as (ns & Ens & Rns & Hl).
+    rewrite default_node_cont, Ens. cbn [bind default_val].
+    assert (Hd : cdepth (TContainer fs) = depth_for (lenN fs)).
+    { change (cdepth (TContainer fs)) with (nat_of (cover_depth (lenN fs))).
+      apply cover_depth_for. lia. }
+    pose proof (fun a b => fill_series zh (cdepth (TContainer fs)) ns _ a b Rns) as Hfill.
+    destruct Hfill as (c & Ec & Sc).
+    + rewrite Hd. pose proof (depth_for_bound (lenN fs) 63 Hcnt). lia.
+    + rewrite Hd, Hl. apply depth_for_ge.
+    + exists c. split; [exact Ec|]. rewrite repr_cont. exact Sc.
+  - (* union *)
+    cbn [wf_ty small_params small_fields] in Hwf, Hsp, Hsf.
+    apply andb_prop in Hwf. destruct Hwf as [Hwf Hwfo].
+    apply andb_prop in Hwf. destruct Hwf as [Hne _].
+    rewrite default_node_union. cbn [default_val]. destruct none.
+    + eexists. split; [reflexivity|]. rewrite repr_union. eexists. split; reflexivity.
+    + destruct opts as [|o opts]; [discriminate Hne|].
+      cbn [forallb] in Hwfo, Hsp, Hsf. apply andb_prop in Hwfo, Hsp, Hsf.
+      inversion IHopts as [|? ? Ho _]; subst.
+      destruct (Ho (proj1 Hwfo) (proj1 Hsp) (proj1 Hsf)) as (d0 & Ed & Rd).
+      rewrite Ed. cbn [bind]. eexists. split; [reflexivity|]. rewrite repr_union.
+      exists d0. split; [reflexivity|]. change (nat_of 0) with O. cbn [rpick]. exact Rd.
+Qed.
+
+End Default.
+
+(* ------------------------------------------------------------------------------------ *)
+(** * 7. Corollaries *)
+
+Section Corollaries.
+Variable H : chunk -> chunk -> chunk.
+Variable zh : nat -> chunk.
+Hypothesis Hzh : forall d, zh d = zero_hash H d.
+
+(* the constructors succeed on every typed value and the resulting view has the spec root *)
+Theorem from_val_root_ex t v :
+  wf_ty t = true -> small_params t = true -> small_fields t = true -> no_bool_seq t = true ->
+  has_type v t = true ->
+  exists n, from_val zh t v = OK n /\ root_of H n = spec_htr H t v.
+Proof.
+  intros Hwf Hsp Hsf Hnb Hty.
+  destruct (from_val_repr H zh Hzh t v Hwf Hsp Hsf Hty) as (n & En & Rn).
+  exists n. split; [exact En|]. exact (repr_root H zh Hzh t v n Hwf Hsp Hnb Hty Rn).
+Qed.
+
+Theorem from_val_root t v n :
+  wf_ty t = true -> small_params t = true -> small_fields t = true -> no_bool_seq t = true ->
+  has_type v t = true ->
+  from_val zh t v = OK n -> root_of H n = spec_htr H t v.
+Proof.
+  intros Hwf Hsp Hsf Hnb Hty E.
+  destruct (from_val_root_ex t v Hwf Hsp Hsf Hnb Hty) as (n' & En & Rn).
+  rewrite E in En. injection En as <-. exact Rn.
+Qed.
+
+Theorem default_root_ex t :
+  wf_ty t = true -> small_params t = true -> small_fields t = true -> no_bool_seq t = true ->
+  exists n, default_node zh t = OK n /\ root_of H n = spec_htr H t (default_val t).
+Proof.
+  intros Hwf Hsp Hsf Hnb.
+  destruct (default_repr H zh Hzh t Hwf Hsp Hsf) as (n & En & Rn).
+  exists n. split; [exact En|].
+  exact (repr_root H zh Hzh t _ n Hwf Hsp Hnb (has_type_default t Hwf) Rn).
+Qed.
+
+Theorem default_root t n :
+  wf_ty t = true -> small_params t = true -> small_fields t = true -> no_bool_seq t = true ->
+  default_node zh t = OK n -> root_of H n = spec_htr H t (default_val t).
+Proof.
+  intros Hwf Hsp Hsf Hnb E.
+  destruct (default_root_ex t Hwf Hsp Hsf Hnb) as (n' & En & Rn).
+  rewrite E in En. injection En as <-. exact Rn.
+Qed.
+
+End Corollaries.
+
+(* ---- why List/Vector[bool] is excluded (known finding D3): the code hashes one chunk per
+        bool, the spec packs bools 32 to a chunk.  A concrete pair hash that tells them apart. *)
+Definition refute_H (a b : chunk) : chunk := pad32 (firstn 16 a ++ firstn 16 b).
+
+Theorem bool_seq_refuted :
+  exists (H : chunk -> chunk -> chunk) t v n,
+    wf_ty t = true /\ has_type v t = true /\
+    from_val (zero_hash H) t v = OK n /\ root_of H n <> spec_htr H t v.
+Proof.
+  exists refute_H, (TList TBool 2), (VSeq [VBool true; VBool true]),
+         (Pair (Pair (Leaf true_chunk) (Leaf true_chunk)) (len_leaf 2)).
+  repeat split; try (vm_compute; reflexivity).
+  intro E. vm_compute in E. discriminate E.
+Qed.
+
+(* the same with everything spelled out: only [no_bool_seq] fails *)
+Theorem bool_seq_refuted_explicit :
+  let t := TList TBool 2 in
+  let v := VSeq [VBool true; VBool true] in
+  let n := Pair (Pair (Leaf true_chunk) (Leaf true_chunk)) (len_leaf 2) in
+  wf_ty t = true /\ small_params t = true /\ small_fields t = true /\ no_bool_seq t = false /\
+  has_type v t = true /\ from_val (zero_hash refute_H) t v = OK n /\
+  repr (zero_hash refute_H) t n v /\
+  root_of refute_H n <> spec_htr refute_H t v.
+Proof.
+  cbv zeta. repeat split; try (vm_compute; reflexivity).
+  - destruct (from_val_repr refute_H (zero_hash refute_H) (fun d => eq_refl)
+                (TList TBool 2) (VSeq [VBool true; VBool true])) as (n & En & Rn);
+      try (vm_compute; reflexivity).
+    vm_compute in En. injection En as <-. exact Rn.
+  - intro E. vm_compute in E. discriminate E.
+Qed.
+
+(* ---- why [small_fields] is needed for the constructors: a container type with 2^64+1 bool
+        fields is wf and small_params, its all-false value is typed, but CoverDepth(2^64+1) = 1
+        and SubtreeFillToContents refuses the nodes.  (Such a list cannot be evaluated; the
+        proof is symbolic in the length K.) *)
+Lemma many_fields_err K zh : N.of_nat K = 2 ^ 64 + 1 ->
+  wf_ty (TContainer (repeat TBool K)) = true /\
+  small_params (TContainer (repeat TBool K)) = true /\
+  no_bool_seq (TContainer (repeat TBool K)) = true /\
+  small_fields (TContainer (repeat TBool K)) = false /\
+  has_type (VCont (repeat (VBool false) K)) (TContainer (repeat TBool K)) = true /\
+  from_val zh (TContainer (repeat TBool K)) (VCont (repeat (VBool false) K)) = Err.
+Proof.
+  intros HK.
+  assert (Hall : forall (p : ty -> bool), p TBool = true -> forallb p (repeat TBool K) = true).
+  { intros p Hp. apply forallb_forall. intros x Hx. apply repeat_spec in Hx. subst x. exact Hp. }
+  assert (HlenN : lenN (repeat TBool K) = 2 ^ 64 + 1) by (rewrite lenN_repeat; exact HK).
+  repeat split.
+  - cbn [wf_ty]. rewrite repeat_length, Hall by reflexivity.
+    destruct K; [cbn in HK; lia|reflexivity].
+  - cbn [small_params]. apply Hall. reflexivity.
+  - cbn [no_bool_seq]. apply Hall. reflexivity.
+  - cbn [small_fields]. rewrite HlenN. reflexivity.
+  - rewrite has_type_cont. clear. induction K as [|K IH]; [reflexivity|].
+    cbn [repeat rfields_ty]. rewrite IH. reflexivity.
+  - rewrite from_val_cont. rewrite !repeat_length, Nat.eqb_refl. cbn [negb].
+    assert (E : rfields_from zh (repeat TBool K) (repeat (VBool false) K)
+                = OK (repeat (Leaf (zh 0%nat)) K)).
+    { clear. induction K as [|K IH]; [reflexivity|].
+      cbn [repeat rfields_from]. rewrite IH. reflexivity. }
+    rewrite E. cbn [bind].
+    change (cdepth (TContainer (repeat TBool K)))
+      with (nat_of (cover_depth (lenN (repeat TBool K)))).
+    rewrite HlenN. change (nat_of (cover_depth (2 ^ 64 + 1))) with 1%nat.
+    apply fill_to_contents_err; [reflexivity|].
+    rewrite repeat_length, HK. reflexivity.
+Qed.
+
+Theorem small_fields_needed : exists t v,
+  wf_ty t = true /\ small_params t = true /\ no_bool_seq t = true /\ small_fields t = false /\
+  has_type v t = true /\ forall zh, from_val zh t v = Err.
+Proof.
+  assert (HK : N.of_nat (N.to_nat (2 ^ 64 + 1)) = 2 ^ 64 + 1) by apply N2Nat.id.
+  revert HK. generalize (N.to_nat (2 ^ 64 + 1)). intros K HK.
+  exists (TContainer (repeat TBool K)), (VCont (repeat (VBool false) K)).
+  destruct (many_fields_err K (fun _ => []) HK) as (A & B & C & D & E & _).
+  repeat split; try assumption.
+  intros zh. apply (many_fields_err K zh HK).
+Qed.
+
+(* ------------------------------------------------------------------------------------ *)
+(** * 8. Examples: the hypotheses of the theorems are satisfiable (non-trivial input) *)
+
+Definition ex_ty : ty :=
+  TContainer [TUint 8; TList (TUint 2) 5; TVector TRoot 3; TBitlist 10; TBitvector 300;
+              TUnion true [TBool; TBytes 4]; TList (TContainer [TBool; TUint 1]) 4].
+Definition ex_val : val :=
+  VCont [VUint 77; VSeq [VUint 1; VUint 65535; VUint 3];
+         VSeq [VBytes (repeat Byte.x01 32); VBytes (repeat Byte.x02 32); VBytes (repeat Byte.x03 32)];
+         VBits [true; false; true]; VBits (repeat true 300);
+         VUnion 2 (Some (VBytes [Byte.x0a; Byte.x0b; Byte.x0c; Byte.x0d]));
+         VSeq [VCont [VBool true; VUint 9]]].
+
+Example ex_hyps :
+  wf_ty ex_ty = true /\ small_params ex_ty = true /\ small_fields ex_ty = true /\
+  no_bool_seq ex_ty = true /\ has_type ex_val ex_ty = true.
+Proof. repeat split; vm_compute; reflexivity. Qed.
+
+(* repr_root: a representing tree exists (and it is the one FromFields builds) *)
+Example repr_root_ex : exists n, repr toy_zh ex_ty n ex_val /\ from_val toy_zh ex_ty ex_val = OK n.
+Proof.
+  destruct ex_hyps as (A & B & C & D & E).
+  destruct (from_val_repr toy_H toy_zh (fun d => eq_refl) ex_ty ex_val A B C E) as (n & En & Rn).
+  exists n. split; assumption.
+Qed.
+
+Example from_val_root_check :
+  exists n, from_val toy_zh ex_ty ex_val = OK n /\ root_of toy_H n = spec_htr toy_H ex_ty ex_val.
+Proof. eexists. split; vm_compute; reflexivity. Qed.
+
+Example default_root_check :
+  exists n, default_node toy_zh ex_ty = OK n /\
+            root_of toy_H n = spec_htr toy_H ex_ty (default_val ex_ty).
+Proof. eexists. split; vm_compute; reflexivity. Qed.
+
+(* zero elements: empty list / bitlist *)
+Example empty_list_check :
+  exists n, from_val toy_zh (TList (TUint 8) 100) (VSeq []) = OK n /\
+            root_of toy_H n = spec_htr toy_H (TList (TUint 8) 100) (VSeq []).
+Proof. eexists. split; vm_compute; reflexivity. Qed.
+
+Print Assumptions repr_root.
+Print Assumptions from_val_repr.
+Print Assumptions default_repr.
+Print Assumptions has_type_default.
+Print Assumptions from_val_root.
+Print Assumptions from_val_root_ex.
+Print Assumptions default_root.
+Print Assumptions default_root_ex.
+Print Assumptions bool_seq_refuted.
+Print Assumptions bool_seq_refuted_explicit.
+Print Assumptions small_fields_needed.
